@@ -56,6 +56,8 @@ def _pairs(rng, fr):
         # I(e) is e for a categorical e as well (ordered categorical: the declared order is not the sorted one)
         ("y ~ I(o)", "y ~ o", "I-cat"), ("y ~ x + {o}:z", "y ~ x + o:z", "I-cat"), ("y ~ 0 + I(c)", "y ~ 0 + c", "I-cat"),
         ("y ~ I(f) + x", "y ~ f + x", "I-cat"), ("I(o) ~ x", "o ~ x", "I-cat"),
+        # I(e) is e on new frames too: an INTEGER training column, fractional values at prediction
+        ("y ~ I(z)", "y ~ z", "I-int"), ("y ~ {z} + f", "y ~ z + f", "I-int"), ("y ~ I(z):x", "y ~ z:x", "I-int"),
         ("y ~ standardize(x) + f", "y ~ scale(x) + f", "standardize"),
         (f"y ~ T(f, '{r}')", f"y ~ C(f, Treatment('{r}'))", "T"),
         (f"y ~ x + S(g, '{o}')", f"y ~ x + C(g, Sum('{o}'))", "S"),
@@ -79,8 +81,14 @@ def gen(rng, tier):
                 col["values"] = [v + rng.randint(0, 3) for v in col["values"]]
             if col["name"] == "n_trials":
                 col["values"] = [v + rng.randint(0, 5) for v in col["values"]]
+        # the prediction frame of the I-int pairs holds halves in the column that was integer at training
+        new_frac = {"columns": [dict(col, type="float", values=[f"{2 * v + 1}/2" for v in col["values"]]) if col["name"] == "z"
+                                else col for col in new["columns"]]}
+        for col in new_frac["columns"]:
+            col.pop("dtype", None) if col["name"] == "z" else None
         for a, b, kind in _pairs(rng, fr):
-            cases.append({"formula": a, "alias": b, "frame": fr, "new": new, "kind": kind, "na": "drop"})
+            cases.append({"formula": a, "alias": b, "frame": fr, "new": new_frac if kind == "I-int" else new, "kind": kind,
+                          "na": "drop"})
     return cases
 
 
@@ -273,6 +281,17 @@ def oracle(c):
         wn = new["n_trials"].to_numpy(dtype=float) if "n_trials" in f else np.full(len(new), 30.0)
         if not np.array_equal(rn, wn):
             return f"{f!r}: response.evaluate_new_data reports {rn.tolist()}, the trials of the new frame are {wn.tolist()}"
+        # the usual prediction frame: the outcome is not known yet (successes missing, or the column absent): still
+        # one trial count per row of that frame
+        for label, frame2 in (("missing successes", new.assign(succ=np.nan)), ("no successes column", new.drop(columns=["succ"])),
+                              ("some successes missing", new.assign(succ=[np.nan if j % 2 == 0 else v for j, v in enumerate(new["succ"])]))):
+            try:
+                r2 = np.asarray(d.response.evaluate_new_data(frame2), dtype=float).reshape(-1)
+            except Exception as e:
+                return f"{f!r}: response.evaluate_new_data on a new frame with {label} raises {type(e).__name__}: {str(e)[:60]}"
+            if not np.array_equal(r2, wn):
+                return (f"{f!r}: with {label} response.evaluate_new_data reports {r2.tolist()}, the trials of the new "
+                        f"frame are {wn.tolist()}")
         return None
     if kind == "I":
         M = np.asarray(d.common["I(x)"], dtype=float).reshape(-1)
